@@ -147,6 +147,24 @@ func H_C07_daysBetween() {
 	vReach("negative", delta < 0)
 }
 
+// the same against four concrete anchor dates: one side of the difference is then a constant, which keeps the VC
+// decidable also for an implementation that computes the day count with a closed form of its own
+//
+//verif:harness C07 quick anchor=0..3
+func H_C07_daysBetweenAnchored(anchor int) {
+	anchors := [4][3]int{{1, 1, 1}, {0, 3, 1}, {2000, 2, 29}, {9999, 12, 31}}
+	by, bm, bd := anchors[anchor][0], anchors[anchor][1], anchors[anchor][2]
+	a, ay, am, ad := symDate("a", 0, 9999)
+	b := mkDate(by, bm, bd)
+	delta := refOrdinalJ(ay, am, ad) - refOrdinalJ(by, bm, bd)
+	vAssume(delta >= -106751 && delta <= 106751)
+	vAssert("days-to-anchor", a.DaysBetween(b) == delta)
+	vAssert("days-from-anchor", b.DaysBetween(a) == -delta)
+	vAssert("sub-to-anchor", a.Sub(b) == time.Duration(delta)*24*time.Hour)
+	vReach("before-anchor", delta < 0 || anchor == 1)
+	vReach("after-anchor", delta > 0 || anchor == 3)
+}
+
 //verif:harness C07 quick
 func H_C07_scanOtherTypes() {
 	pre := Date{year: vI32("pre.year"), month: vU8("pre.month"), day: vU8("pre.day")}
